@@ -371,6 +371,23 @@ def check_computed(model, rep, rm):
                     if meth == 'compute_electric_current' and owner != 'E[0]':
                         continue       # the current belongs to the motor E[0]; a call on another element does not count
                     comp.setdefault(meth, set()).add((frozenset(classes), frozenset(flags)))
+    # ... in EVERY instant context that records: a derived variable computed only on some paths (e.g. not while the powertrain is
+    # held) is still appended by the recorder on the others - as None at the first instant, as the previous value later
+    per_ctx = {}
+    for name, rp, events in rm.instants():
+        if not any('record' in classify(rm, ev) for ev in events):
+            continue
+        got = {meth for ev in events for owner, meth, args, kwargs, g in ev.calls if meth in DERIVED.values()}
+        # a computation the context rules out by its own flag (`if motor.electric_current_is_computable:` false on this path)
+        off = {str(g.key[0]).split('.')[-1] for ev in events for g in tuple(ev.guards) if g.kind == 'truth' and not g.pol} | \
+              {str(g.key[0]).split('.')[-1] for g in rp.guards if g.kind == 'truth' and not g.pol}
+        per_ctx[name] = (got, {m_ for m_ in DERIVED.values() if m_.replace('compute_', '') + '_is_computable' in off})
+    everywhere = set().union(*[g for g, _ in per_ctx.values()]) if per_ctx else set()
+    short = sorted((name, sorted(everywhere - got - excused)) for name, (got, excused) in per_ctx.items() if everywhere - got - excused)
+    rep.decide(not short, 'C17.computed', 'Solver.run:every-recording-instant',
+               f'in instant context {short[0][0] if short else ""} the recorder runs but {short[0][1] if short else ""} are not called (they are in other '
+               f'contexts): the samples appended there are None or left over from an earlier instant', loc=rm.member.loc,
+               detail=f'{len(per_ctx)} recording instant contexts call the same derived computations {sorted(everywhere)}')
     concrete = [c for c in model.subclasses('RotatingObject') if not model.is_abstract_class(c)]
     for cls in sorted(concrete):
         sx = SX(model)
@@ -417,6 +434,64 @@ def check_computed(model, rep, rm):
                 why = (f'a {cls} records {key!r} while the solver calls {meth} only when {sorted(flags)} hold: for '
                        f'{[(str(k[1])[:50], v) for k, v in a.items()][:6]} a stale/None sample is appended')
             rep.decide(ok, 'C17.computed', f'{cls}[{key}]', why, loc=mu.loc)
+
+
+def check_history_writers(model, rep, R='C17.reset'):
+    """who may replace or empty a list of recorded samples: the element's own constructor / recorder (creation of its keys) and
+    Powertrain.reset.  The samples belong to the elements, which several Powertrain objects may share; any other place that
+    rebinds or clears `time_variables[...]` (e.g. the Powertrain constructor) destroys a history another object still indexes"""
+    bad = []
+    n = 0
+    units = [(fname, None, mod, fn) for fname, (mod, fn) in model.functions.items()]
+    for cname, ci in model.classes.items():
+        for mem in ci.all_members():
+            units.append((mem.qualname, cname, ci.module, mem.node))
+    # allowed writers, closed under "private helper called only from allowed writers"
+    allowed = {q for q, c, _, f in units if q == 'Powertrain.reset' or (c is not None and model.is_subclass(c, 'RotatingObject')
+                                                                         and f.name in ('__init__', 'update_time_variables'))}
+    callers = {}
+    for q, c, _, f in units:
+        for x in ast.walk(f):
+            if isinstance(x, ast.Call):
+                if isinstance(x.func, ast.Name) and x.func.id in model.functions:
+                    callers.setdefault(x.func.id, set()).add(q)
+                elif isinstance(x.func, ast.Attribute) and isinstance(x.func.value, ast.Name) and c is not None and x.func.value.id in ('self', 'cls', c) \
+                        and x.func.attr.startswith('_') and not x.func.attr.endswith('__'):
+                    mem = model.find_member(c, x.func.attr)
+                    if mem is not None:
+                        callers.setdefault(mem.qualname, set()).add(q)
+    grew = True
+    while grew:
+        grew = False
+        for q, cs in callers.items():
+            if q not in allowed and cs and cs <= allowed:
+                allowed.add(q)
+                grew = True
+    for qual, cname, mod, fn in units:
+        if '/units/' in mod:
+            continue
+        n += 1
+        if qual in allowed:
+            continue
+        aliases = set()
+        for x in ast.walk(fn):
+            if isinstance(x, ast.Assign) and len(x.targets) == 1 and isinstance(x.targets[0], ast.Name) \
+                    and isinstance(x.value, ast.Attribute) and x.value.attr == 'time_variables':
+                aliases.add(x.targets[0].id)
+
+        def is_tv(e):
+            return (isinstance(e, ast.Attribute) and e.attr == 'time_variables') or (isinstance(e, ast.Name) and e.id in aliases)
+        for x in ast.walk(fn):
+            if isinstance(x, ast.Subscript) and isinstance(x.ctx, (ast.Store, ast.Del)) and is_tv(x.value):
+                bad.append((qual, mod, x.lineno, f'`{ast.unparse(x)[:50]}` is rebound'))
+            if isinstance(x, ast.Call) and isinstance(x.func, ast.Attribute) and x.func.attr in ('clear', 'update', 'pop', 'popitem') and (
+                    is_tv(x.func.value) or (isinstance(x.func.value, ast.Subscript) and is_tv(x.func.value.value) and x.func.attr in ('clear', 'pop'))):
+                bad.append((qual, mod, x.lineno, f'`{ast.unparse(x)[:50]}`'))
+    for qual, mod, ln, what in bad[:3]:
+        rep.violation(R, f'{qual}:history-writer', f'{what} outside the elements\' own code and Powertrain.reset: the samples are shared by every Powertrain '
+                      f'object built on these elements, whose time axis then no longer matches them', f'{mod}:{ln}')
+    if not bad:
+        rep.holds(R, 'time_variables:writers', f'{n} functions scanned: the recorded lists are replaced only by the elements themselves and by Powertrain.reset')
 
 
 def check_kind(model, rep):
@@ -480,6 +555,7 @@ def check(model, rep):
     check_setter_stores(model, rep, 'C17.setter-stores', tuple(VARIABLE_ATTR.values()))
     from checks.c12 import check_reset
     check_reset(model, rep, R='C17.reset')
+    check_history_writers(model, rep)
     check_export(model, rep)
     rep.require('C17.guards', 40)
     rep.require('C17.one', 40)
